@@ -41,7 +41,7 @@ type pairObserved struct {
 
 // steps of one sync in the model's order: F = a block request at the publisher, H = a block-hook call
 func pairSteps(seg, n int) []string {
-	var s []string
+	s := []string{"S"} // the call is made
 	if seg == 0 {
 		for i := 0; i < n; i++ {
 			s = append(s, "F")
@@ -120,9 +120,11 @@ func replayPair(pc *pairCase, pubs map[string]*chain.Pub) (key, detail string, o
 	ctx, cancel := context.WithTimeout(context.Background(), 40*time.Second)
 	defer cancel()
 	done := map[string]chan struct{}{}
-	for name, p := range pubs {
-		name, p := name, p
+	for name := range pubs {
 		done[name] = make(chan struct{})
+	}
+	startSync := func(name string) {
+		p := pubs[name]
 		go func() {
 			defer close(done[name])
 			if _, err := sub.SyncAdChain(ctx, p.AddrInfo()); err != nil {
@@ -132,6 +134,7 @@ func replayPair(pc *pairCase, pubs map[string]*chain.Pub) (key, detail string, o
 			}
 		}()
 	}
+	started := map[string]bool{}
 	pending := map[string]*arrival{}
 	finished := map[string]bool{}
 	releaseAll := func() { // let everything run out (after a divergence or at the end)
@@ -144,6 +147,9 @@ func replayPair(pc *pairCase, pubs map[string]*chain.Pub) (key, detail string, o
 		for {
 			allDone := true
 			for name := range pubs {
+				if !started[name] {
+					continue
+				}
 				select {
 				case <-done[name]:
 				default:
@@ -185,6 +191,18 @@ func replayPair(pc *pairCase, pubs map[string]*chain.Pub) (key, detail string, o
 	stepNo := map[string]int{}
 	steps := pairSteps(pc.Seg, pc.N)
 	for _, p := range pc.Order {
+		if steps[stepNo[p]] == "S" {
+			// the call is made now; the step is over when the sync stands at its first request
+			stepNo[p]++
+			started[p] = true
+			ob.Steps = append(ob.Steps, p+"S")
+			startSync(p)
+			if _, ok := waitFor(p); !ok {
+				releaseAll()
+				return "infra", fmt.Sprintf("sync %s did not reach its first request within 15 s", p), ob
+			}
+			continue
+		}
 		a, ok := waitFor(p)
 		if !ok {
 			releaseAll()
@@ -247,6 +265,11 @@ func RunPairs(args []string) *rep.Report {
 	}
 	si, sn := rep.ParseShard(*shard)
 	r := rep.New()
+	if si%2 == 1 {
+		// every other worker process runs its goroutines on one processor: what one sync releases (a pooled buffer, say) is then
+		// what the other sync picks up next
+		runtime.GOMAXPROCS(1)
+	}
 	pubs := map[int]map[string]*chain.Pub{}
 	getPubs := func(n int) (map[string]*chain.Pub, error) {
 		if p, ok := pubs[n]; ok {
